@@ -416,11 +416,7 @@ def base_cfg(**kw):
 
 
 SPECIAL = [
-    # the three defects of the pinned tree, in the order that exposes the stale global
-    ("valid", base_cfg(total=3, dry=True)),
-    ("valid", base_cfg(total=3, term=[False, True], inspect=1)),
-    ("valid", base_cfg(outdir=True, sanity=False)),
-    ("valid", base_cfg(outdir=False, total=1)),
+    # (the configurations exposing the three defects of the pinned tree are in corpus/C27)
     # documented error paths
     ("error", base_cfg(total=0)),
     ("error", base_cfg(fresh=[False])),
@@ -521,7 +517,7 @@ class C27(C.Check):
                     "normalised to the documented preconditions, plus corpus, the configurations exposing the three defects "
                     "and the documented error paths; resume modes run two calls; non-trivial = returned normally and minimised "
                     "at least once; distinct by (configuration, total, resume)" % len(PARAMS),
-            "samples": [{"cfg": r["cfg"], "acts": r["obs"]["acts"]} for r in self.obs[len(SPECIAL):len(SPECIAL) + 2]],
+            "samples": [{"cfg": r["cfg"], "acts": r["obs"]["acts"]} for r in self.obs[-2:]],
             "input_distribution": {"calls": len(self.obs), "raised": sum(1 for r in self.obs if r["obs"]["code"] != 0),
                                    "with_outdir": sum(1 for r in self.obs if r["outdir"]),
                                    "resumed": sum(1 for r in self.obs if r["resume"]),
